@@ -7,6 +7,7 @@ RULE = ("sequential runs of k allocations from chosen counter positions (around 
 ASSUMPTIONS = ["the lock/atomics of PidAllocator are exercised by real OS threads (stress), not by enumerated schedules",
                "u64 exhaustion of next_serial (2^64 wraps) is outside the theorem's hypothesis (serial < 2^63)"]
 MAXP = 1048576
+SUM_P = (1 << 61) - 1
 
 
 def oracle(case, impl):
@@ -20,6 +21,24 @@ def oracle(case, impl):
             return ("violation", "%d duplicate identifiers handed out" % d)
         if "worddups=" in impl and int(impl.split("worddups=")[1].split()[0]) != 0:
             return ("violation", "reference words handed out twice")
+        if t[0] == "par" and " sum=" in impl:
+            # whatever the interleaving, the identifiers handed out are those of the numbering: numbers count up to the
+            # maximum and restart at 1, and a number issued after r restarts carries the starting serial plus r (the
+            # allocation that hits the maximum may carry either) — otherwise a later cycle re-issues an earlier one's
+            th, per, i0, s0, cr = (int(x) for x in t[1:6])
+            sums, wraps, want_id = {0}, 0, i0
+            for _ in range(th * per):
+                at_max = want_id >= MAXP
+                sers = {(s0 + wraps) % 2**32} | ({(s0 + wraps + 1) % 2**32} if at_max else set())
+                sums = {(x + want_id * 1000003 + ser * 7 + cr) % SUM_P for x in sums for ser in sers}
+                if at_max:
+                    wraps, want_id = wraps + 1, 1
+                else:
+                    want_id += 1
+            got = int(impl.split(" sum=")[1].split()[0])
+            if got not in sums:
+                return ("violation", "the identifiers handed out concurrently are not those of the numbering: some number was issued "
+                                     "with a serial it does not have in its cycle (an identifier of another cycle is re-issued)")
         return None
     if t[0] == "seq":
         pids = [tuple(int(x) for x in p.split(".")) for p in impl.split()]
